@@ -1179,7 +1179,8 @@ type fetchLiteralReader struct {
 
 func (lit *fetchLiteralReader) Read(b []byte) (int, error) {
 	n, err := lit.LiteralReader.Read(b)
-	if err == io.EOF && lit.ch != nil {
+	if err != nil && lit.ch != nil {
+		// on EOF or on any other error: nothing more will be read
 		close(lit.ch)
 		lit.ch = nil
 	}
